@@ -37,7 +37,14 @@ def zoo():
             complex(1, 2), U4[1], U_NOT4[0], U_NOT4[1], DTS[1], DS[1], datetime.time(1, 2),
             datetime.timedelta(1), Opaque(), ..., MyStr("abc"), MyInt(3), MyList([1]), MyDict(a=1),
             {None: 1, (1, 2): 2, 3: 3}, range(3), object, len,
-            {float("nan"): 1, float("nan"): 2}, {Opaque(): 1, Opaque(): 2}, [float("nan"), float("nan")]]
+            {float("nan"): 1, float("nan"): 2}, {Opaque(): 1, Opaque(): 2}, [float("nan"), float("nan")],
+            # type edges: aware vs naive datetimes, lone surrogates, combining marks, case-folding pairs, denormals, huge ints
+            datetime.datetime(2024, 2, 29, 12, 30, tzinfo=datetime.timezone.utc),
+            datetime.datetime(2024, 2, 29, 12, 30, tzinfo=datetime.timezone(datetime.timedelta(hours=5, minutes=30))),
+            datetime.datetime.min, datetime.date.max, "\ud800", "e\u0301", "\u00e9", "\u00df", "SS", "\x00", "a\x00b",
+            5e-324, -5e-324, 2.2250738585072014e-308, 1.7976931348623157e308, 10 ** 400, -10 ** 400, 2 ** 1024,
+            bytearray(b""), memoryview(b"ab"), {1: "a", None: "b", (1, 2): "c", 1.5: "d", True: "e"}, [[[[[[[[[[1]]]]]]]]]],
+            {"a": {"a": {"a": {"a": {"a": {"a": 1}}}}}}]
 
 
 def perturb(v, rnd, zoo_n=3):
@@ -75,7 +82,7 @@ def perturb(v, rnd, zoo_n=3):
             put(x + "!")
             put("a" + x)
             put(x.upper())
-            put(x.encode())
+            put(x.encode("utf-8", "surrogatepass"))
         elif isinstance(x, bytes):
             put(x + b"a")
             put(x[1:])
@@ -85,10 +92,16 @@ def perturb(v, rnd, zoo_n=3):
             put(U_NOT4[0])
             put(str(x))
         elif isinstance(x, datetime.datetime):
-            put(x + datetime.timedelta(seconds=1))
+            try:
+                put(x + datetime.timedelta(seconds=1))
+            except OverflowError:
+                put(x - datetime.timedelta(seconds=1))
             put(x.date())
         elif isinstance(x, datetime.date):
-            put(x + datetime.timedelta(days=1))
+            try:
+                put(x + datetime.timedelta(days=1))
+            except OverflowError:
+                put(x - datetime.timedelta(days=1))
             put(datetime.datetime(x.year, x.month, x.day))
         elif isinstance(x, list):
             put(x + [None])
